@@ -344,3 +344,134 @@ Example packetized_nontrivial :
   wops_nonempty wops /\ pw_buffered wst = false /\ rest = [] /\ pr_hdr rst = []
   /\ wrs = [WTook 3; WTook 0; WTook 1] /\ handed rrs = [[x01; x02; x03]; [x09]].
 Proof. vm_compute. repeat split; reflexivity. Qed.
+
+(* ------------------------------------------------------------------ progress: the end of the stream is reached *)
+
+Ltac split_pread E :=
+  repeat first
+    [ progress cbv beta iota zeta in E
+    | match type of E with
+      | context [if ?c then _ else _] => destruct c
+      | context [match ?c with Some _ => _ | None => _ end] => destruct c as [[? ?]|]
+      end ].
+
+(* Read() only ever removes bytes from the front of the stream *)
+Lemma pread_shrinks mtu st u stream a1 a2 st' stream' r :
+  pread mtu st u stream a1 a2 = (st', stream', r) -> lenN stream' <= lenN stream.
+Proof.
+  unfold pread, pread_hdr. intros E. split_pread E; injection E as _ <- _; rewrite ?lenN_dropN; lia.
+Qed.
+
+(* a Read() that finds bytes available on both of its child reads consumes at least one byte *)
+Lemma pread_progress mtu st u stream a1 a2 ps st' stream' r :
+  rep st stream ps -> 0 < a1 -> 0 < a2 -> stream <> [] ->
+  pread mtu st u stream a1 a2 = (st', stream', r) ->
+  lenN stream' < lenN stream.
+Proof.
+  intros [Herr Hrep] Ha1 Ha2 Hne. unfold pread. rewrite Herr.
+  assert (Hpos : 0 < lenN stream) by (destruct stream; [congruence|rewrite lenN_cons; lia]).
+  destruct (lenN (pr_hdr st) <? SZW) eqn:Hh.
+  - (* the size word is incomplete: the first child read takes at least one byte; the second read can only take more *)
+    apply N.ltb_lt in Hh.
+    destruct (pread_hdr mtu st stream a1) as [[st1 stream1] bad] eqn:E1.
+    assert (H1 : lenN stream1 < lenN stream).
+    { unfold pread_hdr in E1. assert (Hh' : (lenN (pr_hdr st) <? SZW) = true) by now apply N.ltb_lt.
+      rewrite Hh' in E1. cbv zeta in E1.
+      set (n := N.min a1 (SZW - lenN (pr_hdr st))) in *.
+      assert (Hn : 0 < n) by (subst n; lia).
+      assert (Hd : lenN (dropN n stream) < lenN stream) by (rewrite lenN_dropN; lia).
+      split_pread E1; injection E1 as _ <- _; exact Hd. }
+    intros E. split_pread E; injection E as _ <- _; rewrite ?lenN_dropN; lia.
+  - (* the size word is complete: the payload read takes at least one byte *)
+    apply N.ltb_ge in Hh.
+    destruct Hrep as [(Hlt & _)|(p & ps' & _ & Hhd & Hsz & Hdl & _)]; [lia|].
+    unfold pread_hdr. assert (Hh' : (lenN (pr_hdr st) <? SZW) = false) by now apply N.ltb_ge.
+    rewrite Hh'.
+    assert (H4 : lenN (pr_hdr st) = SZW) by (rewrite Hhd, lenN_le32; reflexivity).
+    assert (E1 : (lenN (pr_hdr st) =? SZW) = true) by (now apply N.eqb_eq).
+    assert (E2 : (lenN (pr_data st) <? pr_size st) = true) by (apply N.ltb_lt; lia).
+    cbv beta iota. rewrite E1, E2. cbn [andb]. cbv zeta.
+    set (n := N.min a2 (pr_size st - lenN (pr_data st))).
+    assert (Hn : 0 < n) by (subst n; lia).
+    destruct (lenN (pr_data st ++ takeN n stream) =? pr_size st); intros E; injection E as <- <- <-; rewrite lenN_dropN; lia.
+Qed.
+
+(* once the stream is read to its end no packet is half-read and none is outstanding *)
+Lemma rep_stream_end st ps : rep st [] ps -> pr_hdr st = [] /\ ps = [].
+Proof.
+  intros H. assert (Hh : pr_hdr st = []).
+  { destruct H as [_ [(Hlt & _ & _ & Hfr)|(p & ps' & _ & _ & _ & Hdl & Hfr)]].
+    - rewrite app_nil_r in Hfr. destruct ps as [|p ps]; [exact Hfr|]. exfalso.
+      assert (E : lenN (pr_hdr st) = lenN (frames (p :: ps))) by now rewrite Hfr.
+      rewrite frames_cons, lenN_app, lenN_frame in E. lia.
+    - exfalso. rewrite app_nil_r in Hfr. assert (E : lenN (pr_data st) = lenN (p ++ frames ps')) by now rewrite Hfr.
+      rewrite lenN_app in E. lia. }
+  split; [exact Hh|]. eapply rep_exhausted; eassumption.
+Qed.
+
+(* as many Read() calls as there are bytes, each finding bytes available, read the stream to its end *)
+Lemma preads_exhaust mtu : forall script ps st stream st' stream' rs,
+  mtu < two32 -> Forall (pkt_ok mtu) ps ->
+  Forall (fun x => mtu <= fst (fst x) /\ 0 < snd (fst x) /\ 0 < snd x) script ->
+  rep st stream ps -> (length stream <= length script)%nat ->
+  preads mtu st stream script = (st', stream', rs) ->
+  stream' = [].
+Proof.
+  induction script as [|[[u a1] a2] script IH]; intros ps st stream st' stream' rs Hmtu Hps Hsc Hrep Hlen; cbn [preads].
+  - intros E. injection E as <- <- <-. destruct stream; [reflexivity|cbn in Hlen; lia].
+  - inversion Hsc as [|? ? (Hu & H1 & H2) Hsc']; subst. cbn [fst snd] in *.
+    destruct (pread mtu st u stream a1 a2) as [[st1 stream1] r] eqn:E1.
+    destruct (preads mtu st1 stream1 script) as [[st2 stream2] rs2] eqn:E2.
+    intros E. injection E as <- <- <-.
+    assert (Hshort : (length stream1 <= length script)%nat).
+    { destruct stream as [|b stream].
+      - pose proof (pread_shrinks _ _ _ _ _ _ _ _ _ E1) as Hs. unfold lenN in Hs. cbn [length] in Hs. lia.
+      - pose proof (pread_progress _ _ _ _ _ _ _ _ _ _ Hrep H1 H2 ltac:(discriminate) E1) as Hp.
+        unfold lenN in Hp. cbn [length] in *. lia. }
+    destruct (pread_spec _ _ _ _ _ _ _ _ _ _ Hmtu Hps Hu Hrep E1) as [[_ Hrep1]|(p & ps1 & -> & _ & Hrep1)].
+    + eapply IH; [exact Hmtu|exact Hps|exact Hsc'|exact Hrep1|exact Hshort|exact E2].
+    + inversion Hps as [|? ? _ Hps1]; subst.
+      eapply IH; [exact Hmtu|exact Hps1|exact Hsc'|exact Hrep1|exact Hshort|exact E2].
+Qed.
+
+(* End to end with a fair reader: whatever the cuts, after as many Read() calls as the stream has bytes, each finding
+   bytes available, every packet Write() accepted has been handed over, once, in order, unchanged. *)
+Theorem packetized_transport_delivers_all :
+  forall mtu wops wst out wrs script rst rest rrs,
+    mtu < two32 -> wops_nonempty wops ->
+    Forall (fun x => mtu <= fst (fst x) /\ 0 < snd (fst x) /\ 0 < snd x) script ->
+    (length out <= length script)%nat ->
+    pwrites mtu pw_init wops = (wst, out, wrs) ->
+    pw_buffered wst = false ->
+    preads mtu pr_init out script = (rst, rest, rrs) ->
+    handed rrs = taken wops wrs /\ rest = [] /\ Forall (fun r => r <> None) rrs.
+Proof.
+  intros mtu wops wst out wrs script rst rest rrs Hmtu Hne Hsc Hlen Hw Hnb Hr.
+  assert (Hsc' : Forall (fun x => mtu <= fst (fst x)) script) by (eapply Forall_impl; [|exact Hsc]; intros x (H & _); exact H).
+  assert (Hok0 : pw_ok pw_init) by (split; cbn; [lia|reflexivity]).
+  destruct (packetized_write_stream mtu wops pw_init wst out wrs Hok0 Hne Hw) as [Hok Hout].
+  rewrite (pw_not_buffered_rest wst Hok Hnb), app_nil_r in Hout. cbn [pw_rest pw_init pw_sent pw_buf] in Hout.
+  unfold dropN in Hout. cbn [N.to_nat skipn app] in Hout.
+  assert (Htk : Forall (pkt_ok mtu) (taken wops wrs)).
+  { clear - Hw Hne Hok0. revert wst out wrs Hw Hne. generalize pw_init as st0, Hok0.
+    induction wops as [|o ops IH]; intros st0 Hok wst out wrs; cbn [pwrites].
+    - intros E _. injection E as <- <- <-. constructor.
+    - destruct o as [p a1 a2|acc]; cbn [wops_nonempty].
+      + destruct (pwrite mtu st0 p a1 a2) as [[st1 o1] r] eqn:E1.
+        destruct (pwrites mtu st1 ops) as [[st2 o2] rs2] eqn:E2.
+        intros E [Hp Hne']. injection E as <- <- <-.
+        destruct (pwrite_spec _ _ _ _ _ _ _ _ Hok Hp E1) as (Hok1 & _ & Hr).
+        specialize (IH st1 Hok1 _ _ _ E2 Hne'). cbn [taken]. destruct r as [n|]; [|exact IH].
+        destruct (n =? 0) eqn:Hn; [exact IH|]. constructor; [|exact IH].
+        split; [exact Hp|]. unfold pwrite in E1. destruct (mtu <? lenN p) eqn:Hm; [injection E1 as _ _ E; discriminate|].
+        apply N.ltb_ge in Hm. exact Hm.
+      + destruct (pw_flush st0 acc) as [st1 o1] eqn:E1.
+        destruct (pwrites mtu st1 ops) as [[st2 o2] rs2] eqn:E2.
+        intros E Hne'. injection E as <- <- <-.
+        destruct (pw_flush_spec _ _ _ _ Hok E1) as [Hok1 _].
+        cbn [taken]. exact (IH st1 Hok1 _ _ _ E2 Hne'). }
+  rewrite Hout in Hr, Hlen.
+  pose proof (preads_exhaust mtu script _ _ _ _ _ _ Hmtu Htk Hsc (rep_init _) Hlen Hr) as Hrest. subst rest.
+  destruct (packetized_read_stream mtu script _ _ _ _ _ _ Hmtu Htk Hsc' (rep_init _) Hr) as [Hnone (ps' & Hd & Hrep)].
+  destruct (rep_stream_end _ _ Hrep) as [_ ->]. rewrite app_nil_r in Hd. auto.
+Qed.
